@@ -1,5 +1,5 @@
 SPECIFICATION Spec
-CONSTANTS MethodStates = {"no", "meth", "attr"}
+CONSTANTS Tri = {"run", "fill", "compute", "request", "fill_into", "m"}
 INVARIANT AsDocumented
 INVARIANT NamedNeverCasts
 INVARIANT FillComputeBinds
@@ -8,5 +8,7 @@ INVARIANT AttrIsAbsent
 INVARIANT CbfOnlyFillInto
 INVARIANT Monotone
 INVARIANT LogWithinCaps
+INVARIANT RepeatedUse
+PROPERTY BindingStable
 INVARIANT Emitted
 CHECK_DEADLOCK FALSE
